@@ -15,6 +15,7 @@ pub struct SigRow {
     pub guard_lts: Vec<String>,   // lifetime of each `&'x Guard` parameter ("_" = elided)
     pub ret_lts: Vec<String>,     // lifetimes mentioned in the return type ("_" = elided/anonymous)
     pub outlives: Vec<(String, String)>, // declared bounds 'a: 'b (a outlives b), of the method and its impl
+    pub q_sized: bool,            // a lookup-key parameter `Q` is declared without `?Sized`
     pub ret: String,
     pub returns_borrow: bool,
     pub has_static_bound: bool,
@@ -84,6 +85,37 @@ fn bounds_of(generics: &syn::Generics, param: &str) -> (bool, bool, bool) {
         }
     }
     (send, sync, st)
+}
+
+/// is the type parameter `param` declared here, and if so, is it `?Sized`?
+fn maybe_sized(generics: &syn::Generics, param: &str) -> (bool, bool) {
+    let mut declared = false;
+    let mut relaxed = false;
+    let mut scan = |bounds: &syn::punctuated::Punctuated<syn::TypeParamBound, syn::token::Plus>| {
+        for b in bounds {
+            if b.to_token_stream().to_string().replace(' ', "") == "?Sized" {
+                relaxed = true;
+            }
+        }
+    };
+    for p in &generics.params {
+        if let syn::GenericParam::Type(tp) = p {
+            if tp.ident == param {
+                declared = true;
+                scan(&tp.bounds);
+            }
+        }
+    }
+    if let Some(w) = &generics.where_clause {
+        for pred in &w.predicates {
+            if let syn::WherePredicate::Type(pt) = pred {
+                if pt.bounded_ty.to_token_stream().to_string() == param {
+                    scan(&pt.bounds);
+                }
+            }
+        }
+    }
+    (declared, relaxed)
 }
 
 fn outlives_of(generics: &syn::Generics, out: &mut Vec<(String, String)>) {
@@ -180,7 +212,10 @@ pub fn scan(file: &syn::File, fname: &str, types: &[&str]) -> (Vec<SigRow>, Vec<
         let mut outlives = Vec::new();
         outlives_of(&imp.generics, &mut outlives);
         outlives_of(&f.sig.generics, &mut outlives);
+        let (qd1, qr1) = maybe_sized(&imp.generics, "Q");
+        let (qd2, qr2) = maybe_sized(&f.sig.generics, "Q");
         sigs.push(SigRow {
+            q_sized: (qd1 || qd2) && !(qr1 || qr2),
             outlives,
             file: fname.into(),
             ty,
@@ -243,7 +278,7 @@ pub fn sig_coq(rows: &[SigRow]) -> String {
          From Coq Require Import List String NArith.\nImport ListNotations.\nOpen Scope string_scope.\n\n\
          Record sigrow := { g_file : string; g_ty : string; g_trait : string; g_name : string; g_line : N;\n\
          \x20 g_self : string; g_guards : list string; g_ret_lts : list string;\n\
-         \x20 g_outlives : list (string * string); g_ret : string;\n\
+         \x20 g_outlives : list (string * string); g_q_sized : bool; g_ret : string;\n\
          \x20 g_borrow : bool; g_static : bool }.\n\nDefinition sigs : list sigrow := [\n",
     );
     s.push_str(
@@ -251,11 +286,12 @@ pub fn sig_coq(rows: &[SigRow]) -> String {
             .iter()
             .map(|r| {
                 format!(
-                    "  {{| g_file := {}; g_ty := {}; g_trait := {}; g_name := {}; g_line := {}%N; g_self := {}; g_guards := [{}]; g_ret_lts := [{}]; g_outlives := [{}]; g_ret := {}; g_borrow := {}; g_static := {} |}}",
+                    "  {{| g_file := {}; g_ty := {}; g_trait := {}; g_name := {}; g_line := {}%N; g_self := {}; g_guards := [{}]; g_ret_lts := [{}]; g_outlives := [{}]; g_q_sized := {}; g_ret := {}; g_borrow := {}; g_static := {} |}}",
                     q(&r.file), q(&r.ty), q(&r.trait_), q(&r.name), r.line, q(&r.self_lt),
                     r.guard_lts.iter().map(|x| q(x)).collect::<Vec<_>>().join("; "),
                     r.ret_lts.iter().map(|x| q(x)).collect::<Vec<_>>().join("; "),
                     r.outlives.iter().map(|(a, b)| format!("({}, {})", q(a), q(b))).collect::<Vec<_>>().join("; "),
+                    r.q_sized,
                     q(&r.ret), r.returns_borrow, r.has_static_bound
                 )
             })
